@@ -14,7 +14,7 @@ from harness.util import rel_close
 RULE = ("mixtures of 1..6 distinct substances (pool of real formulas + random 1..3-element formulas over the live "
         "periodic table) with log-uniform positive proportions in [1e-3,1e3], every norm_type (NUMBER, "
         "NUMBER_FRACTION, MASS_FRACTION), natural / most-abundant, built from a dict or from the '<..>' string; "
-        "plus Substance composites (elements with counts, NUMBER mode); corpus first. non-trivial = at least two "
+        "plus Substance composites (elements with counts, NUMBER mode); the avg row always and the components= selection on 40 % of the cases (impl vs model; selected rows must keep their values); scaling and both dualities on 40 % (quick) / all (thorough) of the cases; plus histories (a + b, add() on the sum, k * sum, add() on an operand; every live material re-read after every step); corpus first. non-trivial = at least two "
         "components with different masses; distinct = canonical JSON of (kind, mode, natural, components)")
 ASSUMPTIONS = [
     "proportions and component masses are positive finite floats (the property's quantifier); empty composites return None and are skipped",
@@ -69,6 +69,8 @@ def rand_formula(rng, syms):
 
 def rand_prop(rng):
     r = rng.random()
+    if r > 0.94:
+        return math.exp(rng.uniform(math.log(1e-12), math.log(1e-6)))     # trace component
     if r < 0.15:
         return float(rng.randint(1, 9))
     if r < 0.3:
@@ -137,7 +139,22 @@ def run_impl(case):
     except Exception as e:  # noqa
         return {"err": repr(e)[:200]}
     mode = "NUMBER" if case["kind"] == "substance" else case["mode"]
-    return {"keys": keys, "p": ps, "m": ms, "x": xs, "X": Xs, "sum": [sx, sX], "mode": mode}
+    out = {"keys": keys, "p": ps, "m": ms, "x": xs, "X": Xs, "sum": [sx, sX], "mode": mode,
+           "weighted": case["kind"] == "substance"}
+    # the `avg` row and the `components=` selection (modelled; not part of the property's text)
+    try:
+        keep = case.get("keep")
+        keep = (keep + [True] * len(keys))[:len(keys)] if keep else [True] * len(keys)
+        if not any(keep):
+            keep[0] = True
+        sel = [k for k, b in zip(keys, keep) if b]
+        dd = obj.data_composite(components=sel if len(sel) < len(keys) else None, quantity=False)
+        out["keep"] = keep
+        out["sel"] = {"x": [float(dd[k].x) for k in sel], "X": [float(dd[k].X) for k in sel],
+                      "sum": [float(dd['sum'].x), float(dd['sum'].X)], "avg": [float(dd['avg'].x), float(dd['avg'].X)]}
+    except Exception as e:  # noqa
+        out["sel"] = {"err": repr(e)[:200]}
+    return out
 
 
 def second(case, comps, mode):
@@ -145,6 +162,8 @@ def second(case, comps, mode):
     c2 = dict(case, via="dict")
     obj = build(c2, comps=comps, mode=mode)
     keys, ps, ms, xs, Xs, sx, sX = observe(obj)
+    if keys != [f for f, _ in comps]:
+        raise ValueError("components %s became %s" % ([f for f, _ in comps], keys))
     return xs, Xs
 
 
@@ -156,6 +175,17 @@ def judge(ctx, case, imp, res, report=True):
             viol.append(("fractions:error", "constructing/reporting a valid material raises: %s" % imp["err"]))
         return viol, dis
     mode = imp["mode"]
+    if case["kind"] == "material":
+        given = case["comps"]
+        if imp["keys"] != [f for f, _ in given]:
+            viol.append(("fractions:%s:components" % mode, "the material was given components %s but holds %s" %
+                         ([f for f, _ in given], imp["keys"])))
+            return viol, dis
+        tol = 1e-9 if case.get("via") == "dict" else 1e-3      # the string form is written with 4 decimals
+        for (f, p), q in zip(given, imp["p"]):
+            if not close(p, q, rtol=tol):
+                viol.append(("fractions:%s:proportion" % mode, "component %s was given proportion %r, the material holds %r" % (f, p, q)))
+                return viol, dis
     if "ok" not in res:
         dis.append(("driver", "driver error %s" % res))
         return viol, dis
@@ -183,6 +213,22 @@ def judge(ctx, case, imp, res, report=True):
             viol.append(("fractions:%s:sum_X" % mode, "sum row of X is %r, not 100" % imp["sum"][1]))
     ok_model = all(close(imp["x"][i], mx[i]) and close(imp["X"][i], mX[i]) for i in range(n)) and \
         close(imp["sum"][0], unfrac(r["model"]["sum"][0])) and close(imp["sum"][1], unfrac(r["model"]["sum"][1]))
+    # selection / avg row
+    sel, msel = imp.get("sel"), r.get("sel")
+    if sel is not None and msel is not None and not viol:
+        if "err" in sel:
+            viol.append(("fractions:%s:filter" % mode, "data_composite(components=…) raises: %s" % sel["err"]))
+        else:
+            want_x = [v for v, b in zip(sx, imp["keep"]) if b]
+            want_X = [v for v, b in zip(sX, imp["keep"]) if b]
+            if not (all(close(a, b) for a, b in zip(sel["x"], want_x)) and all(close(a, b) for a, b in zip(sel["X"], want_X))
+                    and close(sel["sum"][0], sum(want_x)) and close(sel["sum"][1], sum(want_X))):
+                viol.append(("fractions:%s:filter" % mode, "listing only components %s changes their fractions or the sum row: x %s X %s sum %s, full table x %s X %s" %
+                             (imp["keep"], sel["x"], sel["X"], sel["sum"], imp["x"], imp["X"])))
+            ok_sel = all(close(a, unfrac(b)) for a, b in zip(sel["x"], msel["x"])) and all(close(a, unfrac(b)) for a, b in zip(sel["X"], msel["X"])) \
+                and all(close(a, unfrac(b)) for a, b in zip(sel["sum"], msel["sum"])) and all(close(a, unfrac(b)) for a, b in zip(sel["avg"], msel["avg"]))
+            if not ok_sel:
+                dis.append(("fractions-avg", "impl selection %s ; model %s" % (sel, {k: [float(unfrac(v)) for v in msel[k]] for k in msel})))
     if not ok_model:
         dis.append(("fractions", "impl x=%s X=%s sum=%s ; model x=%s X=%s" %
                     (imp["x"], imp["X"], imp["sum"], [float(v) for v in mx], [float(v) for v in mX])))
@@ -204,6 +250,14 @@ def relational(ctx, case, imp):
         if not (all(close(a, b) for a, b in zip(xs, imp["x"])) and all(close(a, b) for a, b in zip(Xs, imp["X"]))):
             viol.append(("fractions:%s:scale" % mode, "multiplying all proportions by %r changes the fractions: x %s -> %s, X %s -> %s" %
                          (k, imp["x"], xs, imp["X"], Xs)))
+        # the same scaling with the operator `k * material`, and material + material
+        obj = build(dict(case, via="dict"), comps=[[f, p] for f, p in zip(subs, imp["p"])], mode=mode)
+        for name, other in (("k * material", k * obj), ("material + material", obj + obj)):
+            keys, ps, ms, xs, Xs, sx, sX = observe(other)
+            if keys != subs or not (all(close(a, b) for a, b in zip(xs, imp["x"])) and all(close(a, b) for a, b in zip(Xs, imp["X"]))):
+                viol.append(("fractions:%s:scale_operator" % mode, "%s (k=%r) changes the fractions: components %s x %s -> %s, X %s -> %s" %
+                             (name, k, keys, imp["x"], xs, imp["X"], Xs)))
+                break
         # duality: same material specified by the reported mass fractions / number fractions
         xs, Xs = second(case, [[f, v] for f, v in zip(subs, imp["X"])], "MASS_FRACTION")
         if not (all(close(a, b) for a, b in zip(xs, imp["x"])) and all(close(a, b) for a, b in zip(Xs, imp["X"]))):
@@ -221,7 +275,8 @@ def relational(ctx, case, imp):
 def request(imp):
     if "err" in imp:
         return {"k": "fractions", "mode": "NUMBER", "comps": []}
-    return {"k": "fractions", "mode": imp["mode"],
+    return {"k": "fractions", "mode": imp["mode"], "keep": imp.get("keep", [True] * len(imp["p"])),
+            "weighted": bool(imp.get("weighted")),
             "comps": [[frac(p), frac(m)] for p, m in zip(imp["p"], imp["m"])]}
 
 
@@ -249,11 +304,82 @@ def process(ctx, cases):
             ctx.count("mode.%s" % imp["mode"])
             ctx.count("ncomp.%d" % len(imp["p"]))
         viol, dis = judge(ctx, case, imp, r)
-        viol += relational(ctx, case, imp)
+        if case.get("relational", True):
+            ctx.count("relational")
+            viol += relational(ctx, case, imp)
         for sig, what in viol[:1]:
             ctx.violation(sig, "%s  [%s]" % (what, json.dumps(case)[:300]), {"stream": "fractions", "case": case, "impl": imp})
         for stream, detail in dis[:1]:
             ctx.disagreement(stream, case, detail)
+
+
+def snapshot(obj, mode):
+    try:
+        keys, ps, ms, xs, Xs, sx, sX = observe(obj)
+        return {"keys": keys, "p": ps, "m": ms, "x": xs, "X": Xs, "sum": [sx, sX], "mode": mode}
+    except Exception as e:  # noqa
+        return {"err": repr(e)[:200]}
+
+
+def history_stream(ctx, nat, allsym, n):
+    """materials are combined and modified step by step; after every step every live material is re-read:
+    it must hold the proportions that value semantics gives it (operands untouched) and report the fractions
+    of those proportions"""
+    from scinumtools.materials import Material, Norm
+    entries = []        # (label, replay, expected comps, mode, snapshot)
+    for i in range(n):
+        natural = ctx.rng.random() < 0.6
+        mode = ctx.rng.choice(MODES)
+        pool = [f for f in POOL if natural or True]
+        subs = ctx.rng.sample(pool, 5)
+        A = [[subs[0], rand_prop(ctx.rng)], [subs[1], rand_prop(ctx.rng)]]
+        B = [[subs[1], rand_prop(ctx.rng)], [subs[2], rand_prop(ctx.rng)], [subs[3], rand_prop(ctx.rng)]] \
+            if ctx.rng.random() < 0.5 else [[subs[2], rand_prop(ctx.rng)], [subs[3], rand_prop(ctx.rng)]]
+        padd, k = rand_prop(ctx.rng), ctx.rng.choice([2.0, 0.5, 100.0, 7.25])
+        replay = {"stream": "history", "mode": mode, "natural": natural, "A": A, "B": B, "add": [subs[3], padd], "k": k}
+        ctx.case(["history", replay], True)
+        ctx.count("history")
+
+        def merged(x, y):
+            out = [list(e) for e in x]
+            for f, p in y:
+                for e in out:
+                    if e[0] == f:
+                        e[1] += p
+                        break
+                else:
+                    out.append([f, p])
+            return out
+        try:
+            nt = getattr(Norm, mode)
+            a = Material({f: p for f, p in A}, natural=natural, norm_type=nt)
+            b = Material({f: p for f, p in B}, natural=natural, norm_type=nt)
+            live = [("a", a, A), ("b", b, B)]
+            mix = a + b
+            live.append(("a+b", mix, merged(A, B)))
+            for name, obj, want in live:
+                entries.append(("sum:" + name, replay, want, mode, snapshot(obj, mode)))
+            mix.add(subs[3], padd)                      # only the mixture is enriched
+            live[2] = ("(a+b).add", mix, merged(merged(A, B), [[subs[3], padd]]))
+            for name, obj, want in live:
+                entries.append(("add:" + name, replay, want, mode, snapshot(obj, mode)))
+            km = k * mix
+            live.append(("k*(a+b)", km, [[f, p * k] for f, p in live[2][2]]))
+            b.add(subs[4], padd)                        # an operand is modified afterwards
+            live[1] = ("b.add", b, merged(B, [[subs[4], padd]]))
+            for name, obj, want in live:
+                entries.append(("scale:" + name, replay, want, mode, snapshot(obj, mode)))
+        except Exception as e:  # noqa
+            ctx.violation("history:%s:error" % mode, "combining valid materials raises %r  [%s]" % (e, json.dumps(replay)[:300]), replay)
+    res = ctx.driver.ask_many([request(e[4]) for e in entries])
+    for (label, replay, want, mode, imp), r in zip(entries, res):
+        case = {"kind": "material", "mode": mode, "natural": replay["natural"], "via": "dict", "comps": want}
+        viol, dis = judge(ctx, case, imp, r)
+        for sig, what in viol[:1]:
+            ctx.violation(sig.replace("fractions:", "history:"), "step %s: %s  [%s]" % (label, what, json.dumps(replay)[:300]),
+                          dict(replay, step=label, impl=imp))
+        for stream, detail in dis[:1]:
+            ctx.disagreement("history-" + stream, dict(replay, step=label), detail)
 
 
 def correspond(ctx: Ctx):
@@ -266,8 +392,13 @@ def correspond(ctx: Ctx):
         if ctx.rng.random() < 0.15:
             c["quantity"] = True
         c["k"] = ctx.rng.choice([2.0, 0.5, 7.25, 1e3, 1e-3, math.exp(ctx.rng.uniform(-5, 5))])
+        # scaling + both dualities rebuild the material three times: done on a random 40 % (all in thorough)
+        c["relational"] = thorough or ctx.rng.random() < 0.4
+        if ctx.rng.random() < 0.4:
+            c["keep"] = [ctx.rng.random() < 0.6 for _ in range(8)]
         cases.append(c)
     process(ctx, cases)
+    history_stream(ctx, nat, allsym, 150 if thorough else 25)
 
 
 def replay(ctx, payload):
